@@ -9,7 +9,7 @@ CONSTANTS
   Version = 21
   Deviations = {"RenameKeepsLabel", "WsRemoveKeepsChild", "HoleRemovalKeepsObjectRows", "HoleRemovalKeepsGroupChild", "StalePgIdCache", "EmptyTableRaises", "TableByLabel", "CopySharesRecords", "PlainChildNotUnlinked", "UngroupedDataNotLoaded", "FailedCreateKeepsKey", "HoleRemovalKeepsEmptyPgRow", "CopyTypesPurged"}
   MaxLevel = 4
-  Acts = {"AddHole", "AddDepthData", "AddObjectData", "AddBadData", "RemovePlainChild", "CopyEdit", "CopyPurge", "ReopenRemoveHole", "ReopenRemoveGroup", "AddIntervalData", "Reopen", "RemoveHoleViaParent", "RemoveDataViaParent", "RemoveDataViaWorkspace"}
+  Acts = {"AddHole", "AddDepthData", "AddObjectData", "AddBadData", "RemovePlainChild", "CopyEdit", "CopyPurge", "ReopenRemoveHole", "ReopenRemoveGroup", "RemoveGroup", "AddIntervalData", "Reopen", "RemoveHoleViaParent", "RemoveDataViaParent", "RemoveDataViaWorkspace"}
   TrackSession = FALSE
   Kind = "float"
 VIEW vw
